@@ -683,3 +683,394 @@ Proof.
     reflexivity. }
   unfold spherical_t2d. rewrite E, (admS_swap tv te). cbv zeta. rewrite (orb_comm (Rltb _ tv)). reflexivity.
 Qed.
+
+(* ------------------------------------------------------------------------------------------ *)
+(* B3  unit invariance of one sweep call                                                        *)
+(*   slowness:  tt, slow, vzero multiplied by c                                                 *)
+(*   length:    tt multiplied by c, dargs = (c dz, c dx, dzi/c, dxi/c, dz2i/c^2, dx2i/c^2)       *)
+(*   CAVEAT: the code uses the absolute constant Big = 1e5 for "no 2D candidate"; Big does not   *)
+(*   scale, so the law needs that the 0D/1D candidate min(t0,t1d) is below Big in both systems   *)
+(*   (hypotheses Hbig, Hbig').                                                                   *)
+(* ------------------------------------------------------------------------------------------ *)
+Definition smap c (arr0 : arr R) : arr R := amap (Rmult c) arr0.
+
+Lemma get_smap c (arr0 : arr R) idx : get 0 (smap c arr0) idx = c * get 0 arr0 idx.
+Proof.
+  unfold get, smap, amap. cbn [shape dat].
+  transitivity (nth (Z.to_nat (flat (shape arr0) idx)) (map (Rmult c) (dat arr0)) (c * 0)).
+  - f_equal. ring.
+  - apply map_nth.
+Qed.
+Lemma upd_map {A B} (f : A -> B) l n (w : A) : upd (map f l) n (f w) = map f (upd l n w).
+Proof. revert n; induction l as [|h tl IH]; intros [|n]; simpl; auto. f_equal. apply IH. Qed.
+Lemma set_smap c (arr0 : arr R) idx v : set (smap c arr0) idx (c * v) = smap c (set arr0 idx v).
+Proof. unfold set, smap, amap. cbn [shape dat]. f_equal. apply (upd_map (Rmult c)). Qed.
+
+Lemma pymin2_scale c (x y : R) : 0 < c -> pymin2 (c * x) (c * y) = c * pymin2 x y.
+Proof. intros Hc. unfold pymin2. cbn [nltb NumR]. rewrite Rltb_scale by exact Hc. destruct (Rltb y x); reflexivity. Qed.
+Lemma lin1 c x d y : c * x + d * (c * y) = c * (x + d * y). Proof. ring. Qed.
+Lemma lin2 c x d y : c * x + c * d * y = c * (x + d * y). Proof. ring. Qed.
+Lemma lin3 c x y : c * x - c * y = c * (x - y). Proof. ring. Qed.
+Lemma div_scale c x d : c <> 0 -> (c * x) / (c * d) = x / d.
+Proof. intros Hc. unfold Rdiv. rewrite Rinv_mult. set (id := / d). field. exact Hc. Qed.
+
+(* 1D operators *)
+Theorem t1d_z_scale_slowness c tt slow dz i j sgnvz sgntz nx : 0 < c ->
+  t1d_z (smap c tt) (smap c slow) dz i j sgnvz sgntz nx = c * t1d_z tt slow dz i j sgnvz sgntz nx.
+Proof. intros Hc. unfold t1d_z, edge_s_z, nb_v. rewrite !get_smap, pymin2_scale by exact Hc. apply lin1. Qed.
+Theorem t1d_x_scale_slowness c tt slow dx i j sgnvx sgntx nz : 0 < c ->
+  t1d_x (smap c tt) (smap c slow) dx i j sgnvx sgntx nz = c * t1d_x tt slow dx i j sgnvx sgntx nz.
+Proof. intros Hc. unfold t1d_x, edge_s_x, nb_e. rewrite !get_smap, pymin2_scale by exact Hc. apply lin1. Qed.
+Theorem t1d_z_scale_length c tt slow dz i j sgnvz sgntz nx :
+  t1d_z (smap c tt) slow (c * dz) i j sgnvz sgntz nx = c * t1d_z tt slow dz i j sgnvz sgntz nx.
+Proof. unfold t1d_z, nb_v. rewrite !get_smap. apply lin2. Qed.
+Theorem t1d_x_scale_length c tt slow dx i j sgnvx sgntx nz :
+  t1d_x (smap c tt) slow (c * dx) i j sgnvx sgntx nz = c * t1d_x tt slow dx i j sgnvx sgntx nz.
+Proof. unfold t1d_x, nb_e. rewrite !get_smap. apply lin2. Qed.
+Lemma t1d_scale_slowness c tt slow dz dx i j sgnvz sgnvx sgntz sgntx nz nx : 0 < c ->
+  t1d (smap c tt) (smap c slow) dz dx i j sgnvz sgnvx sgntz sgntx nz nx = c * t1d tt slow dz dx i j sgnvz sgnvx sgntz sgntx nz nx.
+Proof. intros Hc. unfold t1d. rewrite t1d_z_scale_slowness, t1d_x_scale_slowness by exact Hc. apply pymin2_scale, Hc. Qed.
+Lemma t1d_scale_length c tt slow dz dx i j sgnvz sgnvx sgntz sgntx nz nx : 0 < c ->
+  t1d (smap c tt) slow (c * dz) (c * dx) i j sgnvz sgnvx sgntz sgntx nz nx = c * t1d tt slow dz dx i j sgnvz sgnvx sgntz sgntx nz nx.
+Proof. intros Hc. unfold t1d. rewrite t1d_z_scale_length, t1d_x_scale_length. apply pymin2_scale, Hc. Qed.
+
+(* plane-wave operators and their admissibility tests *)
+Theorem four_point_scale_slowness c tv te tev vref dz2i dx2i : 0 <= c ->
+  four_point (c * tv) (c * te) (c * tev) (c * vref) dz2i dx2i = c * four_point tv te tev vref dz2i dx2i.
+Proof.
+  intros Hc. unfold four_point. cbv zeta.
+  match goal with |- _ = c * ((_ + sqrt ?x) / _) => rewrite (sqrt_scale' c x) by (auto; ring) end.
+  unfold Rdiv. ring.
+Qed.
+Theorem four_point_scale_length c tv te tev vref dz2i dx2i : 0 < c ->
+  four_point (c * tv) (c * te) (c * tev) vref (dz2i / (c * c)) (dx2i / (c * c)) = c * four_point tv te tev vref dz2i dx2i.
+Proof.
+  intros Hc. assert (Hi : 0 < / c) by (apply Rinv_0_lt_compat; exact Hc). unfold four_point. cbv zeta.
+  match goal with |- _ = c * ((_ + sqrt ?x) / _) => rewrite (sqrt_scale' (/ c) x) by (try lra; field; lra) end.
+  replace (dz2i / (c * c) + dx2i / (c * c)) with ((dz2i + dx2i) * (/ c * / c)) by (field; lra).
+  unfold Rdiv. rewrite !Rinv_mult, !Rinv_inv. set (iq := / (dz2i + dx2i)). set (sx := sqrt _). field. lra.
+Qed.
+Theorem three_point_e_scale_slowness c te tev vref dz dx : 0 <= c ->
+  three_point_e (c * te) (c * tev) (c * vref) dz dx = c * three_point_e te tev vref dz dx.
+Proof.
+  intros Hc. unfold three_point_e.
+  match goal with |- _ = c * (_ + _ * sqrt ?x) => rewrite (sqrt_scale' c x) by (auto; unfold Rdiv; ring) end. ring.
+Qed.
+Theorem three_point_v_scale_slowness c tv tev vref dz dx : 0 <= c ->
+  three_point_v (c * tv) (c * tev) (c * vref) dz dx = c * three_point_v tv tev vref dz dx.
+Proof. intros Hc. rewrite <- !three_point_swap. apply three_point_e_scale_slowness, Hc. Qed.
+Theorem three_point_e_scale_length c te tev vref dz dx : c <> 0 ->
+  three_point_e (c * te) (c * tev) vref (c * dz) (c * dx) = c * three_point_e te tev vref dz dx.
+Proof. intros Hc. unfold three_point_e. rewrite lin3, div_scale by exact Hc. ring. Qed.
+Theorem three_point_v_scale_length c tv tev vref dz dx : c <> 0 ->
+  three_point_v (c * tv) (c * tev) vref (c * dz) (c * dx) = c * three_point_v tv tev vref dz dx.
+Proof. intros Hc. rewrite <- !three_point_swap. apply three_point_e_scale_length, Hc. Qed.
+
+Lemma adm4_scale_slowness c tv te tev vref dz dx : 0 < c ->
+  adm4 (c * tv) (c * te) (c * tev) (c * vref) dz dx = adm4 tv te tev vref dz dx.
+Proof. intros Hc. unfold adm4. rewrite !lin1, !Rleb_scale by exact Hc. reflexivity. Qed.
+Lemma adm4_scale_length c tv te tev vref dz dx : 0 < c ->
+  adm4 (c * tv) (c * te) (c * tev) vref (c * dz) (c * dx) = adm4 tv te tev vref dz dx.
+Proof. intros Hc. unfold adm4. rewrite !lin2, !Rleb_scale by exact Hc. reflexivity. Qed.
+Lemma admS_scale_slowness c tv te tev vref dz dx : 0 < c ->
+  admS (c * tv) (c * te) (c * tev) (c * vref) dz dx = admS tv te tev vref dz dx.
+Proof. intros Hc. unfold admS. rewrite !lin1, !Rleb_scale, !Rltb_scale by exact Hc. reflexivity. Qed.
+Lemma admS_scale_length c tv te tev vref dz dx : 0 < c ->
+  admS (c * tv) (c * te) (c * tev) vref (c * dz) (c * dx) = admS tv te tev vref dz dx.
+Proof. intros Hc. unfold admS. rewrite !lin2, !Rleb_scale, !Rltb_scale by exact Hc. reflexivity. Qed.
+Lemma adm3e_scale_slowness c te tev vref dz dx : 0 < c ->
+  adm3e (c * te) (c * tev) (c * vref) dz dx = adm3e te tev vref dz dx.
+Proof.
+  intros Hc. unfold adm3e. rewrite lin3.
+  replace (dz * dz * (c * vref) / sqrt (dx * dx + dz * dz)) with (c * (dz * dz * vref / sqrt (dx * dx + dz * dz)))
+    by (unfold Rdiv; ring).
+  rewrite Rleb_scale by exact Hc. replace 0 with (c * 0) at 1 by ring. rewrite Rltb_scale by exact Hc. reflexivity.
+Qed.
+Lemma adm3e_scale_length c te tev vref dz dx : 0 < c ->
+  adm3e (c * te) (c * tev) vref (c * dz) (c * dx) = adm3e te tev vref dz dx.
+Proof.
+  intros Hc. unfold adm3e. rewrite lin3.
+  rewrite (sqrt_scale' c (dx * dx + dz * dz) (c * dx * (c * dx) + c * dz * (c * dz))) by (try lra; ring).
+  replace (c * dz * (c * dz) * vref / (c * sqrt (dx * dx + dz * dz)))
+    with (c * (dz * dz * vref / sqrt (dx * dx + dz * dz)))
+    by (unfold Rdiv; rewrite Rinv_mult; set (ir := / sqrt _); field; lra).
+  rewrite Rleb_scale by exact Hc. replace 0 with (c * 0) at 1 by ring. rewrite Rltb_scale by exact Hc. reflexivity.
+Qed.
+Lemma adm3v_scale_slowness c tv tev vref dz dx : 0 < c ->
+  adm3v (c * tv) (c * tev) (c * vref) dz dx = adm3v tv tev vref dz dx.
+Proof. intros Hc. rewrite <- !adm3_swap. apply adm3e_scale_slowness, Hc. Qed.
+Lemma adm3v_scale_length c tv tev vref dz dx : 0 < c ->
+  adm3v (c * tv) (c * tev) vref (c * dz) (c * dx) = adm3v tv tev vref dz dx.
+Proof. intros Hc. rewrite <- !adm3_swap. apply adm3e_scale_length, Hc. Qed.
+
+(* a 2D candidate either scales or is the constant Big in both systems *)
+Definition t2rel c (x x' : R) : Prop := x' = c * x \/ (x = Big /\ x' = Big).
+
+Lemma plane_t2d_scale_slowness c tv te tev vref dz dx dz2i dx2i : 0 < c ->
+  t2rel c (plane_t2d tv te tev vref dz dx dz2i dx2i) (plane_t2d (c * tv) (c * te) (c * tev) (c * vref) dz dx dz2i dx2i).
+Proof.
+  intros Hc. unfold plane_t2d.
+  rewrite adm4_scale_slowness, adm3e_scale_slowness, adm3v_scale_slowness by exact Hc.
+  destruct (adm4 tv te tev vref dz dx); [left; apply four_point_scale_slowness; lra|].
+  destruct (adm3e te tev vref dz dx); [left; apply three_point_e_scale_slowness; lra|].
+  destruct (adm3v tv tev vref dz dx); [left; apply three_point_v_scale_slowness; lra|].
+  right. split; reflexivity.
+Qed.
+Lemma plane_t2d_scale_length c tv te tev vref dz dx dz2i dx2i : 0 < c ->
+  t2rel c (plane_t2d tv te tev vref dz dx dz2i dx2i)
+          (plane_t2d (c * tv) (c * te) (c * tev) vref (c * dz) (c * dx) (dz2i / (c * c)) (dx2i / (c * c))).
+Proof.
+  intros Hc. unfold plane_t2d.
+  rewrite adm4_scale_length, adm3e_scale_length, adm3v_scale_length by exact Hc.
+  destruct (adm4 tv te tev vref dz dx); [left; apply four_point_scale_length; lra|].
+  destruct (adm3e te tev vref dz dx); [left; apply three_point_e_scale_length; lra|].
+  destruct (adm3v tv tev vref dz dx); [left; apply three_point_v_scale_length; lra|].
+  right. split; reflexivity.
+Qed.
+
+Lemma delta_Big_rel_slowness c tauv taue tauev t0c tzc txc dzi dxi dz2i dx2i vzero vref sgntz sgntx : 0 < c ->
+  t2rel c (delta Big tauv taue tauev t0c tzc txc dzi dxi dz2i dx2i vzero vref sgntz sgntx)
+          (delta Big (c * tauv) (c * taue) (c * tauev) (c * t0c) (c * tzc) (c * txc) dzi dxi dz2i dx2i
+                 (c * vzero) (c * vref) sgntz sgntx).
+Proof.
+  intros Hc. rewrite (delta_scale_slowness_gen c Big) by exact Hc.
+  destruct (Rle_dec _ _) as [P|N]; [left; reflexivity|].
+  right. split; [|reflexivity]. rewrite delta_eq. destruct (Rle_dec _ _); [contradiction|reflexivity].
+Qed.
+Lemma delta_Big_rel_length c tauv taue tauev t0c tzc txc dzi dxi dz2i dx2i vzero vref sgntz sgntx : 0 < c ->
+  t2rel c (delta Big tauv taue tauev t0c tzc txc dzi dxi dz2i dx2i vzero vref sgntz sgntx)
+          (delta Big (c * tauv) (c * taue) (c * tauev) (c * t0c) tzc txc (dzi / c) (dxi / c)
+                 (dz2i / (c * c)) (dx2i / (c * c)) vzero vref sgntz sgntx).
+Proof.
+  intros Hc. rewrite (delta_scale_length_gen c Big) by exact Hc.
+  destruct (Rle_dec _ _) as [P|N]; [left; reflexivity|].
+  right. split; [|reflexivity]. rewrite delta_eq. destruct (Rle_dec _ _); [contradiction|reflexivity].
+Qed.
+
+Lemma spherical_raw_scale_slowness c tv te tev vref dz dx dzi dxi dz2i dx2i zsa xsa vzero i j sgntz sgntx : 0 < c ->
+  t2rel c (spherical_raw tv te tev vref dz dx dzi dxi dz2i dx2i zsa xsa vzero i j sgntz sgntx)
+          (spherical_raw (c * tv) (c * te) (c * tev) (c * vref) dz dx dzi dxi dz2i dx2i zsa xsa (c * vzero) i j sgntz sgntx).
+Proof.
+  intros Hc. unfold spherical_raw. rewrite t_anad_scale_slowness by exact Hc.
+  destruct (t_anad i j dz dx zsa xsa vzero) as [[t0c tzc] txc].
+  rewrite !t_ana_scale_slowness, !lin3. apply delta_Big_rel_slowness, Hc.
+Qed.
+Lemma spherical_raw_scale_length c tv te tev vref dz dx dzi dxi dz2i dx2i zsa xsa vzero i j sgntz sgntx : 0 < c ->
+  t2rel c (spherical_raw tv te tev vref dz dx dzi dxi dz2i dx2i zsa xsa vzero i j sgntz sgntx)
+          (spherical_raw (c * tv) (c * te) (c * tev) vref (c * dz) (c * dx) (dzi / c) (dxi / c)
+                         (dz2i / (c * c)) (dx2i / (c * c)) zsa xsa vzero i j sgntz sgntx).
+Proof.
+  intros Hc. unfold spherical_raw. rewrite t_anad_scale_length by exact Hc.
+  destruct (t_anad i j dz dx zsa xsa vzero) as [[t0c tzc] txc].
+  rewrite !t_ana_scale_length, !lin3 by lra. apply delta_Big_rel_length, Hc.
+Qed.
+
+Lemma guard_rel c d d' tv te : 0 < c -> t2rel c d d' ->
+  t2rel c (if Rltb d tv || Rltb d te then Big else d) (if Rltb d' (c * tv) || Rltb d' (c * te) then Big else d').
+Proof.
+  intros Hc [->|[-> ->]].
+  - rewrite !Rltb_scale by exact Hc. destruct (Rltb d tv || Rltb d te); [right; split; reflexivity | left; reflexivity].
+  - right. split; [destruct (_ || _) | destruct (_ || _)]; reflexivity.
+Qed.
+
+Lemma spherical_t2d_scale_slowness c tv te tev vref dz dx dzi dxi dz2i dx2i zsa xsa vzero i j sgntz sgntx : 0 < c ->
+  t2rel c (spherical_t2d tv te tev vref dz dx dzi dxi dz2i dx2i zsa xsa vzero i j sgntz sgntx)
+          (spherical_t2d (c * tv) (c * te) (c * tev) (c * vref) dz dx dzi dxi dz2i dx2i zsa xsa (c * vzero) i j sgntz sgntx).
+Proof.
+  intros Hc. unfold spherical_t2d. rewrite admS_scale_slowness by exact Hc.
+  destruct (admS tv te tev vref dz dx); [|right; split; reflexivity].
+  cbv zeta. apply guard_rel; [exact Hc|]. apply spherical_raw_scale_slowness, Hc.
+Qed.
+Lemma spherical_t2d_scale_length c tv te tev vref dz dx dzi dxi dz2i dx2i zsa xsa vzero i j sgntz sgntx : 0 < c ->
+  t2rel c (spherical_t2d tv te tev vref dz dx dzi dxi dz2i dx2i zsa xsa vzero i j sgntz sgntx)
+          (spherical_t2d (c * tv) (c * te) (c * tev) vref (c * dz) (c * dx) (dzi / c) (dxi / c)
+                         (dz2i / (c * c)) (dx2i / (c * c)) zsa xsa vzero i j sgntz sgntx).
+Proof.
+  intros Hc. unfold spherical_t2d. rewrite admS_scale_length by exact Hc.
+  destruct (admS tv te tev vref dz dx); [|right; split; reflexivity].
+  cbv zeta. apply guard_rel; [exact Hc|]. apply spherical_raw_scale_length, Hc.
+Qed.
+
+Lemma pymin3_rel c (t0 t1 t2 t2' : R) : 0 < c -> t2rel c t2 t2' ->
+  pymin2 t0 t1 < Big -> c * pymin2 t0 t1 < Big ->
+  pymin3 (c * t0) (c * t1) t2' = c * pymin3 t0 t1 t2.
+Proof.
+  intros Hc Hr Hb Hb'. unfold pymin3. rewrite pymin2_scale by exact Hc. set (m := pymin2 t0 t1) in *.
+  destruct Hr as [->|[-> ->]]; [apply pymin2_scale, Hc|].
+  unfold pymin2. cbn [nltb NumR].
+  rewrite (proj2 (Rltb_false Big (c * m))), (proj2 (Rltb_false Big m)) by lra. reflexivity.
+Qed.
+
+Theorem sweep_scale_slowness c tt ttsgn slow dz dx dzi dxi dz2i dx2i zsi xsi zsa xsa vzero
+        i j sgnvz sgnvx sgntz sgntx nz nx grad :
+  0 < c ->
+  let m := pymin2 (get 0 tt [i; j]) (t1d tt slow dz dx i j sgnvz sgnvx sgntz sgntx nz nx) in
+  forall (Hbig : m < Big) (Hbig' : c * m < Big),
+  fst (sweep (smap c tt) ttsgn (smap c slow) (dz, dx, dzi, dxi, dz2i, dx2i) zsi xsi zsa xsa (c * vzero)
+             i j sgnvz sgnvx sgntz sgntx nz nx grad)
+  = smap c (fst (sweep tt ttsgn slow (dz, dx, dzi, dxi, dz2i, dx2i) zsi xsi zsa xsa vzero
+                       i j sgnvz sgnvx sgntz sgntx nz nx grad)).
+Proof.
+  intros Hc m Hbig Hbig'. rewrite !sweep_tt_eq, <- set_smap. f_equal.
+  rewrite get_smap, t1d_scale_slowness by exact Hc. apply pymin3_rel; try assumption.
+  unfold sweep_t2d, nb_v, nb_e, nb_ev, cell_s. cbv zeta. rewrite !get_smap.
+  destruct (outside_box zsi xsi i j).
+  - apply plane_t2d_scale_slowness, Hc.
+  - apply spherical_t2d_scale_slowness, Hc.
+Qed.
+
+Theorem sweep_scale_length c tt ttsgn slow dz dx dzi dxi dz2i dx2i zsi xsi zsa xsa vzero
+        i j sgnvz sgnvx sgntz sgntx nz nx grad :
+  0 < c ->
+  let m := pymin2 (get 0 tt [i; j]) (t1d tt slow dz dx i j sgnvz sgnvx sgntz sgntx nz nx) in
+  forall (Hbig : m < Big) (Hbig' : c * m < Big),
+  fst (sweep (smap c tt) ttsgn slow (c * dz, c * dx, dzi / c, dxi / c, dz2i / (c * c), dx2i / (c * c))
+             zsi xsi zsa xsa vzero i j sgnvz sgnvx sgntz sgntx nz nx grad)
+  = smap c (fst (sweep tt ttsgn slow (dz, dx, dzi, dxi, dz2i, dx2i) zsi xsi zsa xsa vzero
+                       i j sgnvz sgnvx sgntz sgntx nz nx grad)).
+Proof.
+  intros Hc m Hbig Hbig'. rewrite !sweep_tt_eq, <- set_smap. f_equal.
+  rewrite get_smap, t1d_scale_length by exact Hc. apply pymin3_rel; try assumption.
+  unfold sweep_t2d, nb_v, nb_e, nb_ev. cbv zeta. rewrite !get_smap.
+  destruct (outside_box zsi xsi i j).
+  - apply plane_t2d_scale_length, Hc.
+  - apply spherical_t2d_scale_length, Hc.
+Qed.
+
+(* the arguments sweep2d builds from (c dz, c dx) are the scaled arguments it builds from (dz, dx) *)
+Lemma dargs_of_scale_length c dz dx : c <> 0 ->
+  dargs_of (c * dz) (c * dx)
+  = (c * dz, c * dx, 1 / dz / c, 1 / dx / c, 1 / dz / dz / (c * c), 1 / dx / dx / (c * c)).
+Proof. intros Hc. unfold dargs_of. unfold Rdiv. rewrite !Rinv_mult.
+  repeat (f_equal; try ring). Qed.
+
+(* the same law with the arguments sweep2d actually builds from the grid spacings *)
+Corollary sweep_scale_length_dargs c tt ttsgn slow dz dx zsi xsi zsa xsa vzero i j sgnvz sgnvx sgntz sgntx nz nx grad :
+  0 < c ->
+  let m := pymin2 (get 0 tt [i; j]) (t1d tt slow dz dx i j sgnvz sgnvx sgntz sgntx nz nx) in
+  forall (Hbig : m < Big) (Hbig' : c * m < Big),
+  fst (sweep (smap c tt) ttsgn slow (dargs_of (c * dz) (c * dx)) zsi xsi zsa xsa vzero i j sgnvz sgnvx sgntz sgntx nz nx grad)
+  = smap c (fst (sweep tt ttsgn slow (dargs_of dz dx) zsi xsi zsa xsa vzero i j sgnvz sgnvx sgntz sgntx nz nx grad)).
+Proof.
+  intros Hc m Hbig Hbig'. rewrite dargs_of_scale_length by lra. unfold dargs_of. apply sweep_scale_length; assumption.
+Qed.
+
+(* Hbig/Hbig' are satisfiable whenever the node or one of its axial neighbours has been reached and the times are
+   below 1e5 in both unit systems, e.g. on the example grid with c = 1000 (seconds -> milliseconds): *)
+Example sweep_scale_slowness_ex :
+  fst (sweep (smap 1000 (ex_tt (8/5) (6/5))) ex_sgn (smap 1000 ex_slow) (dargs_of 1 1) 100 100 100 100 (1000 * 2)
+             1 1 1 1 1 1 2 2 false)
+  = smap 1000 (fst (sweep (ex_tt (8/5) (6/5)) ex_sgn ex_slow (dargs_of 1 1) 100 100 100 100 2 1 1 1 1 1 1 2 2 false)).
+Proof.
+  assert (E : pymin2 (get 0 (ex_tt (8/5) (6/5)) [1%Z; 1%Z]) (t1d (ex_tt (8/5) (6/5)) ex_slow 1 1 1 1 1 1 1 1 2 2) = 6/5 + 1 * 2).
+  { change (pymin2 100000 (pymin2 (8/5 + 1 * pymin2 2 2) (6/5 + 1 * pymin2 2 2)) = 6/5 + 1 * 2).
+    unfold pymin2. cbn [nltb NumR].
+    rewrite (proj2 (Rltb_false 2 2)) by lra. rewrite (proj2 (Rltb_true (6/5 + 1 * 2) (8/5 + 1 * 2))) by lra.
+    rewrite (proj2 (Rltb_true (6/5 + 1 * 2) 100000)) by lra. reflexivity. }
+  apply sweep_scale_slowness; [lra | |]; rewrite E; unfold Big; cbn [nofZ NumR]; lra.
+Qed.
+
+(* x-neighbour not reached yet (Big): the 3-point operator through the z-neighbour, direction (4/5, 3/5) *)
+Example sweep_three_point_v_plane_wave_ex :
+  fst (sweep (ex_tt (6/5) 100000) ex_sgn ex_slow (dargs_of 1 1) 100 100 100 100 2 1 1 1 1 1 1 2 2 false)
+  = set (ex_tt (6/5) 100000) [1%Z; 1%Z]
+        (pymin3 100000 (t1d (ex_tt (6/5) 100000) ex_slow 1 1 1 1 1 1 1 1 2 2) (0 + 2 * (4/5 * 1 + 3/5 * 1))).
+Proof.
+  assert (H2 : sqrt 2 * sqrt 2 = 2) by (apply sqrt_sqrt; lra). pose proof (sqrt_pos 2) as P2.
+  assert (H1 : 1 <= sqrt 2) by nra.
+  apply (sweep_three_point_v_plane_wave (ex_tt (6/5) 100000) ex_sgn ex_slow 1 1 100 100 100 100 2 1 1 1 1 1 1 2 2 false
+           0 2 (4/5) (3/5)); try lra.
+  - replace (1 * 1 + 1 * 1) with 2 by ring. nra.
+  - left. unfold epsin. rewrite Rabs_left; lra.
+  - reflexivity.
+  - change (6 / 5 = 0 + 2 * (3 / 5) * 1). lra.
+  - reflexivity.
+  - right. left. change (0 + 2 * (3 / 5) * 1 + 1 * 2 < 100000). lra.
+  - change (~ (100000 - 0 <= 1 * 1 * 2 / sqrt (1 * 1 + 1 * 1) /\ 0 < 100000 - 0)).
+    replace (1 * 1 + 1 * 1) with 2 by ring. intros [Hle _].
+    assert (1 * 1 * 2 / sqrt 2 <= 2).
+    { apply (Rmult_le_reg_r (sqrt 2)); [lra|]. unfold Rdiv. rewrite Rmult_assoc, Rinv_l by lra. lra. }
+    lra.
+Qed.
+
+(* ------------------------------------------------------------------------------------------ *)
+(* A2 at the level of sweep: near the source of a homogeneous medium the spherical operator     *)
+(* reproduces the analytic time                                                                 *)
+(* ------------------------------------------------------------------------------------------ *)
+Theorem spherical_raw_homogeneous dz dx dzi dxi dz2i dx2i zsa xsa vzero i j sgntz sgntx :
+  0 <= dz -> 0 <= dx -> 0 <= dzi -> 0 <= dxi ->
+  0 <= IZR sgntz * (IZR i - zsa) -> 0 <= IZR sgntx * (IZR j - xsa) ->      (* the sweep looks away from the source *)
+  spherical_raw (t_ana (i - sgntz) j dz dx zsa xsa vzero) (t_ana i (j - sgntx) dz dx zsa xsa vzero)
+                (t_ana (i - sgntz) (j - sgntx) dz dx zsa xsa vzero) vzero
+                dz dx dzi dxi dz2i dx2i zsa xsa vzero i j sgntz sgntx
+  = t_ana i j dz dx zsa xsa vzero.
+Proof.
+  intros Hdz Hdx Hdzi Hdxi Hz Hx. unfold spherical_raw. rewrite t_anad_exact.
+  set (t := t_ana i j dz dx zsa xsa vzero).
+  replace (t_ana (i - sgntz) j dz dx zsa xsa vzero - t_ana (i - sgntz) j dz dx zsa xsa vzero) with 0 by ring.
+  replace (t_ana i (j - sgntx) dz dx zsa xsa vzero - t_ana i (j - sgntx) dz dx zsa xsa vzero) with 0 by ring.
+  replace (t_ana (i - sgntz) (j - sgntx) dz dx zsa xsa vzero - t_ana (i - sgntz) (j - sgntx) dz dx zsa xsa vzero)
+    with 0 by ring.
+  apply delta_spherical_exact.
+  destruct (Rlt_dec 0 t) as [P|N]; [|lra].
+  assert (Hv : 0 <= vzero ^ 2) by apply pow2_ge_0.
+  assert (Hit : 0 <= / t) by (left; apply Rinv_0_lt_compat; exact P).
+  assert (G : forall q1 q2 q3 q4 q5 : R, 0 <= q1 -> 0 <= q2 -> 0 <= q3 -> 0 <= q4 -> 0 <= q5 -> 0 <= q1 * q2 * q3 * q4 * q5)
+    by (intros; repeat apply Rmult_le_pos; assumption).
+  set (v2 := vzero ^ 2) in *. set (pz := IZR sgntz * (IZR i - zsa)) in *. set (px := IZR sgntx * (IZR j - xsa)) in *.
+  apply Rplus_le_le_0_compat.
+  - replace (IZR sgntx * (v2 * (IZR j - xsa) * dx / t) * dxi) with (v2 * px * dx * / t * dxi)
+      by (unfold px, Rdiv; ring).
+    apply G; assumption.
+  - replace (IZR sgntz * (v2 * (IZR i - zsa) * dz / t) * dzi) with (v2 * pz * dz * / t * dzi)
+      by (unfold pz, Rdiv; ring).
+    apply G; assumption.
+Qed.
+
+Theorem sweep_spherical_homogeneous tt ttsgn slow dz dx dzi dxi dz2i dx2i zsi xsi zsa xsa vzero
+        i j sgnvz sgnvx sgntz sgntx nz nx grad :
+  let tv := t_ana (i - sgntz) j dz dx zsa xsa vzero in let te := t_ana i (j - sgntx) dz dx zsa xsa vzero in
+  let tev := t_ana (i - sgntz) (j - sgntx) dz dx zsa xsa vzero in let tn := t_ana i j dz dx zsa xsa vzero in
+  0 <= dz -> 0 <= dx -> 0 <= dzi -> 0 <= dxi ->
+  0 <= IZR sgntz * (IZR i - zsa) -> 0 <= IZR sgntx * (IZR j - xsa) ->
+  ~ (IZR epsin < Rabs (IZR i - zsi) \/ IZR epsin < Rabs (IZR j - xsi)) ->
+  nb_v tt i j sgntz = tv -> nb_e tt i j sgntx = te -> nb_ev tt i j sgntz sgntx = tev ->   (* exact upwind values *)
+  cell_s slow i j sgnvz sgnvx = vzero ->
+  tv < te + dx * vzero -> te < tv + dz * vzero -> tev <= te -> tev <= tv -> tv <= tn -> te <= tn ->
+  fst (sweep tt ttsgn slow (dz, dx, dzi, dxi, dz2i, dx2i) zsi xsi zsa xsa vzero i j sgnvz sgnvx sgntz sgntx nz nx grad)
+  = set tt [i; j] (pymin3 (get 0 tt [i; j]) (t1d tt slow dz dx i j sgnvz sgnvx sgntz sgntx nz nx) tn).
+Proof.
+  intros tv te tev tn Hdz Hdx Hdzi Hdxi Hz Hx Hbox Ev Ee Eev Es H1 H2 H3 H4 H5 H6.
+  pose proof (spherical_raw_homogeneous dz dx dzi dxi dz2i dx2i zsa xsa vzero i j sgntz sgntx Hdz Hdx Hdzi Hdxi Hz Hx) as E.
+  fold tv te tev tn in E.
+  rewrite sweep_uses_spherical; rewrite ?Ev, ?Ee, ?Eev, ?Es, ?E; try assumption. reflexivity.
+Qed.
+
+(* ------------------------------------------------------------------------------------------ *)
+Print Assumptions t_ana_exact.
+Print Assumptions t_anad_exact.
+Print Assumptions delta_spherical_exact.
+Print Assumptions delta_spherical_exact_neg.
+Print Assumptions sweep_tt_eq.
+Print Assumptions sweep_uses_four_point.
+Print Assumptions four_point_exact_on_plane_wave.
+Print Assumptions sweep_four_point_plane_wave.
+Print Assumptions sweep_three_point_e_plane_wave.
+Print Assumptions sweep_three_point_v_plane_wave.
+Print Assumptions sweep_spherical_homogeneous.
+Print Assumptions t_ana_scale_slowness.
+Print Assumptions t_ana_scale_length.
+Print Assumptions t_anad_scale_slowness.
+Print Assumptions t_anad_scale_length.
+Print Assumptions delta_scale_slowness.
+Print Assumptions delta_scale_length.
+Print Assumptions sweep_scale_slowness.
+Print Assumptions sweep_scale_length.
+Print Assumptions sweep_scale_length_dargs.
+Print Assumptions t_ana_swap.
+Print Assumptions t_anad_swap.
+Print Assumptions delta_swap.
+Print Assumptions four_point_swap.
+Print Assumptions three_point_swap.
+Print Assumptions plane_t2d_swap.
+Print Assumptions spherical_t2d_swap.
